@@ -66,7 +66,9 @@ let handle line =
     let sc = (match f.(2) with "p256" -> 32 | "p384" -> 48 | "p521" -> 66 | s -> failwith s) in
     go (rep (CEciesEncrypt (prefix_of f.(3) (ios f.(4)), nat sc, nat 12)) (ios f.(5))) [] tape true
   | "MGR" ->
-    let pre = List.map n_of_dec (List.filter (fun s -> s <> "-" && s <> "") (split ',' f.(2))) in
+    (* "id!" = key added then deleted: Delete does not free the id, so it stays in the used set *)
+    let strip s = if String.length s > 0 && s.[String.length s - 1] = '!' then String.sub s 0 (String.length s - 1) else s in
+    let pre = List.map (fun s -> n_of_dec (strip s)) (List.filter (fun s -> s <> "-" && s <> "") (split ',' f.(2))) in
     let adds = List.map (fun s -> CAddKey (keytype_of (List.hd (split '/' s)))) (List.filter (fun s -> s <> "") (split ';' f.(3))) in
     go adds pre tape true
   | "NEWH" -> go (rep (CNewHandle (keytype_of f.(2))) (ios f.(4))) [] tape true
